@@ -14,17 +14,21 @@ namespace rml { namespace internal { class TLSData; } } void doThreadShutdownNot
 static void scenario() {
     const char* k = vf_param("kind", "foreign"); size_t sz = (size_t)vf_param_int("size", 48); ShadowHeap h; std::vector<void*> owned, got[3]; int ready = 0; static int go;
     int nown = streq(k, "last") ? 1 : 3;
+    // -p align=A : the owner's blocks come from scalable_aligned_malloc(size, A) (the user address may lie inside an allocator slot);
+    // -p after=S : size of the allocations made inside the window (default: size), e.g. the full slot size of that bin
+    size_t align = (size_t)vf_param_int("align", 0), asz = (size_t)vf_param_int("after", (long)sz); nown = (int)vf_param_int("nown", nown);
     // thread 1 (owner) allocates before the window, in its own TLS
-    auto al = [&](int t) { void* p = scalable_malloc(sz); if (!p) vf_fail("scalable_malloc failed"); h.add(p, sz, sz <= 8 ? 8 : 16, "scalable_malloc"); if (scalable_msize(p) < sz) vf_fail("msize too small"); got[t].push_back(p); return p; };
+    auto al = [&](int t) { void* p = scalable_malloc(asz); if (!p) vf_fail("scalable_malloc failed"); h.add(p, asz, asz <= 8 ? 8 : 16, "scalable_malloc"); if (scalable_msize(p) < asz) vf_fail("scalable_msize %zu is smaller than the %zu bytes requested", scalable_msize(p), asz); got[t].push_back(p); return p; };
     auto fr = [&](void* p) { h.take(p, "scalable_free"); scalable_free(p); };
     vf_liveness(1);
-    auto ids = gated(2, [&](int i) { if (i == 0) { for (int j = 0; j < nown; j++) { void* p = scalable_malloc(sz); h.add(p, sz, sz <= 8 ? 8 : 16, "setup"); owned.push_back(p); } } else { void* w = scalable_malloc(sz); scalable_free(w); } },
+    auto ids = gated(2, [&](int i) { if (i == 0) { for (int j = 0; j < nown; j++) { void* p = align ? scalable_aligned_malloc(sz, align) : scalable_malloc(sz); if (!p) vf_fail("setup allocation failed"); h.add(p, sz, align ? align : sz <= 8 ? 8 : 16, "setup"); if (scalable_msize(p) < sz) vf_fail("msize too small"); owned.push_back(p);
+                if (align) { void* q = scalable_malloc(asz); h.add(q, asz, 16, "setup (plain neighbour)"); } } } else { void* w = scalable_malloc(sz); scalable_free(w); } },
         [&](int i) {
             if (i == 0) { // owner
                 if (streq(k, "exit")) { al(0); doThreadShutdownNotification(nullptr, false); }
-                else { al(0); al(0); }
+                else { al(0); al(0); if (align) { al(0); al(0); } }
             } else {      // foreign thread frees the owner's blocks and allocates
-                fr(owned[0]); al(1); if (nown > 1) fr(owned[1]); al(1);
+                fr(owned[0]); al(1); if (nown > 1) fr(owned[1]); al(1); if (align) for (int j = 2; j < nown; j++) fr(owned[j]);
             } });
     open_window_and_join(ids);
     vf_liveness(0);
